@@ -322,5 +322,6 @@ func (c *Ctx) RunC10(tier string) {
 		}
 	}
 	rep.Bound += "; a comment line and a blank-padded instruction line of 2^k-1, 2^k, 2^k+1 bytes for k in 10..22 (quick: 2^21 and 2^22 only exactly) followed by valid lines and by a line with an unknown mnemonic"
+	c.runSeq10(thorough)
 	rep.Sample(strings.Join(canonicalFiles(true, 8000)[4], "\n") + "\n")
 }
